@@ -86,19 +86,19 @@ EncMpUpdate(m) ==
 (***************************** structural walker (C08) *********************)
 \* octets of the label stack at the start of a route body: 3-octet entries up to and including the first one with the
 \* bottom-of-stack bit (or the withdrawal label 0x800000); negative when the stack runs past the end of the route
-RECURSIVE StackOct(_)
-StackOct(v) ==
+RECURSIVE StackOct(_, _)
+StackOct(v, reach) ==     \* in an announcement 0x800000 is just label 524288 above the bottom of the stack; only a withdrawal may use it as a placeholder
    IF Len(v) < 3 THEN -100000
-   ELSE IF v[3] % 2 = 1 \/ Take(v, 3) = <<128, 0, 0>> THEN 3 ELSE 3 + StackOct(Drop(v, 3))
+   ELSE IF v[3] % 2 = 1 \/ (~reach /\ Take(v, 3) = <<128, 0, 0>>) THEN 3 ELSE 3 + StackOct(Drop(v, 3), reach)
 \* labeled / VPN routes: the length octet counts the bits of the label stack, the fixed part (RD) and the prefix
-RECURSIVE WfLabeledList(_, _, _)
-WfLabeledList(b, fixed, maxp) ==
+RECURSIVE WfLabeledList(_, _, _, _)
+WfLabeledList(b, fixed, maxp, reach) ==
    IF b = <<>> THEN TRUE
    ELSE /\ Len(b) >= 1 + POctets(b[1])
-        /\ LET so == StackOct(SubSeq(b, 2, 1 + POctets(b[1]))) IN so >= 3 /\ b[1] - 8 * so - fixed >= 0 /\ b[1] - 8 * so - fixed <= maxp
-        /\ WfLabeledList(Drop(b, 1 + POctets(b[1])), fixed, maxp)
-WfLuList(b, maxp) == WfLabeledList(b, 0, maxp)
-WfVpnList(b, maxp) == WfLabeledList(b, 64, maxp)
+        /\ LET so == StackOct(SubSeq(b, 2, 1 + POctets(b[1])), reach) IN so >= 3 /\ b[1] - 8 * so - fixed >= 0 /\ b[1] - 8 * so - fixed <= maxp
+        /\ WfLabeledList(Drop(b, 1 + POctets(b[1])), fixed, maxp, reach)
+WfLuList(b, maxp, reach) == WfLabeledList(b, 0, maxp, reach)
+WfVpnList(b, maxp, reach) == WfLabeledList(b, 64, maxp, reach)
 IpLenOk(n) == n \in {0, 32, 128}
 WfEvpnRoute(t, v) ==
    CASE t = 1 -> Len(v) = 25
@@ -147,13 +147,13 @@ WfFs6List(b) ==
    ELSE IF b[1] >= 240
         THEN /\ Len(b) >= 2 /\ LET n == (b[1] - 240) * 256 + b[2] IN Len(b) >= 2 + n /\ n >= 240 /\ WfComps6(SubSeq(b, 3, 2 + n), 0) /\ WfFs6List(Drop(b, 2 + n))
         ELSE /\ Len(b) >= 1 + b[1] /\ WfComps6(SubSeq(b, 2, 1 + b[1]), 0) /\ WfFs6List(Drop(b, 1 + b[1]))
-WfNlri(afi, safi, b) ==
+WfNlri(afi, safi, b, reach) ==
    CASE afi = 2 /\ safi = 1 -> WfPrefixList(b, 128)
      [] afi = 1 /\ safi = 1 -> WfPrefixList(b, 32)
-     [] afi = 1 /\ safi = 4 -> WfLuList(b, 32)
-     [] afi = 2 /\ safi = 4 -> WfLuList(b, 128)
-     [] afi = 1 /\ safi = 128 -> WfVpnList(b, 32)
-     [] afi = 2 /\ safi = 128 -> WfVpnList(b, 128)
+     [] afi = 1 /\ safi = 4 -> WfLuList(b, 32, reach)
+     [] afi = 2 /\ safi = 4 -> WfLuList(b, 128, reach)
+     [] afi = 1 /\ safi = 128 -> WfVpnList(b, 32, reach)
+     [] afi = 2 /\ safi = 128 -> WfVpnList(b, 128, reach)
      [] afi = 25 /\ safi = 70 -> WfEvpnList(b)
      [] afi = 1 /\ safi = 133 -> WfFsList(b)
      [] afi = 2 /\ safi = 133 -> WfFs6List(b)
@@ -165,8 +165,8 @@ NhLenOk(afi, safi, n) ==
      [] afi = 1 /\ safi = 133 -> n \in {0, 4} [] afi = 2 /\ safi = 133 -> n \in {0, 16} [] safi = 73 -> n \in {4, 16} [] OTHER -> TRUE
 WfMpAttrVal(t, v, asn4) ==
    CASE t = 14 -> /\ Len(v) >= 5 /\ Len(v) >= 5 + v[4] /\ NhLenOk(N16(v, 1), v[3], v[4])
-                  /\ WfNlri(N16(v, 1), v[3], Drop(v, 5 + v[4]))
-     [] t = 15 -> Len(v) >= 3 /\ WfNlri(N16(v, 1), v[3], Drop(v, 3))
+                  /\ WfNlri(N16(v, 1), v[3], Drop(v, 5 + v[4]), TRUE)
+     [] t = 15 -> Len(v) >= 3 /\ WfNlri(N16(v, 1), v[3], Drop(v, 3), FALSE)
      [] t = 22 -> WfPmsi(v)
      [] t = 23 -> WfTunnelEncaps(v)
      [] OTHER -> WfAttrVal(t, v, asn4)
@@ -179,7 +179,7 @@ Pfx6(l, a) == Pfx(l, a)
 AllLen6 == {Pfx6(l, a) : l \in 0..128, a \in {A6a, A6f}}
 P6v6 == <<Pfx6(0, A6a), Pfx6(1, A6f), Pfx6(60, A6a), Pfx6(64, A6a), Pfx6(127, A6f), Pfx6(128, A6a)>>
 P4s == <<Pfx(0, <<0, 0, 0, 0>>), Pfx(1, <<128, 0, 0, 0>>), Pfx(17, <<10, 1, 128, 0>>), Pfx(24, <<192, 168, 7, 0>>), Pfx(32, <<9, 9, 9, 9>>)>>
-Labels == {0, 1, 3, 15, 16, 1048575}
+Labels == {0, 1, 3, 15, 16, 524287, 524288, 524289, 1048575}
 Nh4 == <<10, 0, 0, 9>>
 Nh6 == <<32, 1, 13, 184, 0, 0, 0, 0, 0, 0, 0, 0, 0, 0, 0, 9>>
 Ll6 == <<254, 128, 0, 0, 0, 0, 0, 0, 0, 0, 0, 0, 0, 0, 0, 1>>
@@ -200,7 +200,7 @@ LuPool(fam) ==
        nh == IF fam = "lu4" THEN Nh4 ELSE Nh6
        all == IF fam = "lu4" THEN {Pfx(l, <<10, 77, 203, 13>>) : l \in 0..32} ELSE {Pfx6(l, A6a) : l \in {0, 1, 7, 8, 9, 59, 60, 63, 64, 65, 120, 127, 128}}
    IN {Mp(fam, TRUE, nh, <<Lu(<<l>>, p)>>) : l \in Labels, p \in all}
-      \cup {Mp(fam, TRUE, nh, <<Lu(<<l1, l2>>, ps[i])>>) : l1, l2 \in {0, 16, 1048575}, i \in 1..Len(ps)}
+      \cup {Mp(fam, TRUE, nh, <<Lu(<<l1, l2>>, ps[i])>>) : l1, l2 \in {0, 16, 524288, 1048575}, i \in 1..Len(ps)}
       \* withdrawals: yabgp does not decode MP_UNREACH of the labeled-unicast families at all (and has no encoder for IPv6),
       \* so they are outside "every family both encoded and decoded"
       \cup {Mp(fam, TRUE, nh, <<Lu(<<16>>, ps[i]), Lu(<<l>>, ps[j])>>) : l \in {3, 1048575}, i, j \in 1..Len(ps)}
@@ -211,7 +211,7 @@ VpnPool(fam) ==
    IN {Mp(fam, TRUE, nh, <<Vpn(l, <<0, <<0, 100, 0, 0, 0, 100>>>>, p)>>) : l \in Labels, p \in all}
       \cup {Mp(fam, TRUE, nh, <<Vpn(16, rd, ps[i])>>) : rd \in Rds, i \in 1..Len(ps)}
       \* label stacks of two and three entries, alone and followed by another route
-      \cup {Mp(fam, TRUE, nh, <<VpnS(ls, <<0, <<0, 100, 0, 0, 0, 100>>>>, ps[i])>>) : ls \in {<<16, 17>>, <<1048575, 3>>, <<100, 200, 300>>}, i \in {j \in 1..Len(ps) : ps[j].l <= 96}}
+      \cup {Mp(fam, TRUE, nh, <<VpnS(ls, <<0, <<0, 100, 0, 0, 0, 100>>>>, ps[i])>>) : ls \in {<<16, 17>>, <<1048575, 3>>, <<524288, 100>>, <<100, 524288>>, <<100, 200, 300>>, <<16, 524288, 17>>}, i \in {j \in 1..Len(ps) : ps[j].l <= 96}}
       \cup {Mp(fam, TRUE, nh, <<VpnS(<<16, 17>>, <<0, <<0, 100, 0, 0, 0, 100>>>>, ps[i]), Vpn(3, <<2, <<0, 1, 0, 0, 0, 2>>>>, ps[j])>>) : i, j \in 1..Len(ps)}
       \cup {Mp(fam, FALSE, <<>>, <<Vpn(16, rd, p)>>) : rd \in {<<0, <<0, 100, 0, 0, 0, 100>>>>, <<1, <<10, 1, 2, 3, 0, 7>>>>}, p \in all}
       \cup {Mp(fam, r, IF r THEN nh ELSE <<>>, <<Vpn(16, <<0, <<0, 100, 0, 0, 0, 100>>>>, ps[i]), Vpn(3, <<2, <<0, 1, 0, 0, 0, 2>>>>, ps[j])>>) : r \in BOOLEAN, i, j \in 1..Len(ps)}
